@@ -58,6 +58,21 @@ func (sc *SpecCtx) lookupType(name string) types.Type {
 	case "Int":
 		return specInt
 	}
+	if strings.HasPrefix(name, "map[") {
+		// map[K]V with package-qualified K, V
+		d := 0
+		for i := 3; i < len(name); i++ {
+			switch name[i] {
+			case '[':
+				d++
+			case ']':
+				d--
+				if d == 0 {
+					return types.NewMap(sc.lookupType(name[4:i]), sc.lookupType(name[i+1:]))
+				}
+			}
+		}
+	}
 	if sc.pkg != nil {
 		tv, err := types.Eval(token.NewFileSet(), sc.pkg, token.NoPos, name)
 		if err == nil && tv.IsType() {
@@ -648,6 +663,43 @@ func (sc *SpecCtx) call(x *SX) Val {
 		return sc.fpCall(x, name, args)
 	}
 	switch name {
+	case "result":
+		// result(i, f(args)): the i-th result of a pure package-level function with several
+		// results (the uninterpreted function f#i that replaces the call in code)
+		need(2)
+		idx, ok := litOf(sc.eval(args[0]).T)
+		inner := args[1]
+		if !ok || inner.K != "call" || inner.Args[0].K != "id" || sc.pkg == nil {
+			sc.fail(x, "result(i, f(args)) expected")
+		}
+		fname := inner.Args[0].Op
+		key := sc.pkg.Path() + "." + fname
+		c := vc.eng.contracts.Funcs[key]
+		f, isF := sc.pkg.Scope().Lookup(fname).(*types.Func)
+		if c == nil || !c.Pure || !isF {
+			sc.fail(x, "no pure contract "+key)
+		}
+		sig := f.Type().(*types.Signature)
+		i := int(idx.Int64())
+		if i < 0 || i >= sig.Results().Len() {
+			sc.fail(x, "result index out of range")
+		}
+		var avs []Val
+		for k, a := range inner.Args[1:] {
+			av := sc.eval(a)
+			if k < sig.Params().Len() {
+				av = sc.coerce(av, sig.Params().At(k).Type())
+			}
+			avs = append(avs, av)
+		}
+		rt := sig.Results().At(i).Type()
+		heapOf := func(comp, srt string) Term {
+			if sc.hp != nil {
+				return sc.hp.term(comp, srt)
+			}
+			return vc.heapGet(sc.st, comp, srt)
+		}
+		return Val{Ty: vc.resolve(rt), T: vc.pureApp(fmt.Sprintf("%s$%d", key, i), avs, rt, heapOf)}
 	case "old":
 		need(1)
 		n := *sc
@@ -871,6 +923,55 @@ func (sc *SpecCtx) call(x *SX) Val {
 		need(1)
 		a := sc.eval(args[0])
 		return Val{Ty: specInt, T: vc.pow2Term(vc.toInt(a))}
+	case "implements":
+		// implements(x, "interface{M() T}"): x is non-nil and its dynamic type has the
+		// interface's methods (the same uninterpreted function an x.(I) assertion uses)
+		need(2)
+		v := sc.eval(args[0])
+		if args[1].K != "str" {
+			sc.fail(x, "interface type expected as a string literal")
+		}
+		tv, err := types.Eval(vc.eng.prog.Fset, sc.pkg, 0, args[1].Op)
+		if err != nil {
+			sc.fail(x, "bad interface type: "+err.Error())
+		}
+		return Val{Ty: specBool, T: and(not(eq(v.T, intLit(0))), vc.implementsTerm(v.T, tv.Type))}
+	case "dyncall":
+		// dyncall(x, "I.M", "interface{M() T}"): the result of the pure method M that x has
+		// through the (possibly function-local) interface type I of this package
+		need(3)
+		v := sc.eval(args[0])
+		if args[1].K != "str" || args[2].K != "str" {
+			sc.fail(x, "dyncall(x, \"I.M\", \"interface{...}\") expected")
+		}
+		tv, err := types.Eval(vc.eng.prog.Fset, sc.pkg, 0, args[2].Op)
+		if err != nil {
+			sc.fail(x, "bad interface type: "+err.Error())
+		}
+		it, ok := tv.Type.Underlying().(*types.Interface)
+		mname := args[1].Op[strings.LastIndex(args[1].Op, ".")+1:]
+		var rt types.Type
+		if ok {
+			for i := 0; i < it.NumMethods(); i++ {
+				if it.Method(i).Name() == mname {
+					rt = it.Method(i).Type().(*types.Signature).Results().At(0).Type()
+				}
+			}
+		}
+		if rt == nil {
+			sc.fail(x, "no method "+mname+" in "+args[2].Op)
+		}
+		key := sc.pkg.Path() + "." + args[1].Op
+		if c := vc.eng.contracts.Funcs[key]; c == nil || !c.Pure {
+			sc.fail(x, "no pure contract "+key)
+		}
+		heapOf := func(comp, srt string) Term {
+			if sc.hp != nil {
+				return sc.hp.term(comp, srt)
+			}
+			return vc.heapGet(sc.st, comp, srt)
+		}
+		return Val{Ty: vc.resolve(rt), T: vc.pureApp(key, []Val{v}, rt, heapOf)}
 	case "hasType", "unboxed":
 		// hasType(x, T): interface value x is non-nil with dynamic type T;
 		// unboxed(x, T): the T value it holds
